@@ -76,3 +76,119 @@ def assert_grid_intact(grid, state, what: str = "grid"):
         same = (a == b) if isinstance(a, bool) else (a.shape == b.shape and bool(torch.equal(a, b)))
         if not same:
             raise Violation("grid_object_modified:" + n, f"{what}: attribute '{n}' of the Grid object changed from {a} to {b} during read-only calls")
+
+
+# ---------------------------------------------------------------------------------------
+# grids with a history (see vlib.gen.derivation_steps)
+
+
+def warm_grid(grid, mask: int):
+    """Read-only calls on `grid` selected by the bits of `mask`; they may fill caches but must not change the grid."""
+    from deepali.core import Axes
+
+    calls = [
+        lambda: grid.origin(),
+        lambda: grid.affine(),
+        lambda: grid.inverse_affine(),
+        lambda: grid.transform(Axes.GRID, Axes.WORLD),
+        lambda: grid.transform(Axes.WORLD, Axes.CUBE),
+        lambda: grid.transform(Axes.CUBE_CORNERS, Axes.GRID, vectors=True),
+        lambda: grid.transform(Axes.CUBE, Axes.CUBE_CORNERS),
+        lambda: grid.coords(),
+        lambda: grid.points(),
+        lambda: grid.cube(),
+        lambda: (grid.extent(), grid.cube_extent(), grid.domain()),
+        lambda: (repr(grid), grid == grid, grid.same_domain_as(grid)),
+    ]
+    small = int(grid.numel()) <= 20000  # coords() / points() materialise one vector per sample
+    for i, f in enumerate(calls):
+        if mask >> i & 1 and (small or i not in (7, 8)):
+            f()
+
+
+def derive_grid(grid, steps, min_size: int = 1):
+    """Apply derivation steps (vlib.gen.derivation_steps) to a deepali Grid with deepali's own methods.
+
+    Every intermediate grid is warmed up (read-only calls) before the next step and must be left intact by it.
+    Returns the final grid and the list of operations actually applied.  Raises Skip when a step would leave
+    fewer than `min_size` samples along an axis or produce a fractional internal size."""
+    import copy
+    import pickle
+
+    from vlib.core import Skip
+
+    applied = []
+    for step in steps:
+        warm_grid(grid, int(step.get("warm", 0)))
+        state = grid_state(grid)
+        op = step["op"]
+        n = [int(v) for v in grid.size()]
+        D = len(n)
+        if op == "spacing":
+            new = grid.spacing([float(s) * f for s, f in zip(grid.spacing().tolist(), step["factor"])])
+        elif op == "resample":
+            # coarser spacing only along axes whose size it divides (keeps the derived size integral)
+            fac = [f if f < 1 or a % int(f) == 0 and a // int(f) >= min_size else 1.0 / f for a, f in zip(n, step["factor"])]
+            new = grid.resample([float(s) * f for s, f in zip(grid.spacing().tolist(), fac)])
+        elif op == "direction":
+            new = grid.direction(torch.tensor(ref.direction_matrix(step["dir"]["rot"], step["dir"]["perm"], step["dir"]["flip"]), dtype=torch.float64))
+        elif op == "center":
+            new = grid.center([float(c) + o for c, o in zip(grid.center().tolist(), step["offset"])])
+        elif op == "origin":
+            new = grid.origin([float(c) + o for c, o in zip(grid.origin().tolist(), step["offset"])])
+        elif op == "align_corners":
+            new = grid.align_corners(not grid.align_corners())
+        elif op in ("resize", "reshape", "center_crop", "center_pad"):
+            size = [max(min_size, a + d) for a, d in zip(n, step["delta"])]
+            if op in ("resize", "reshape"):  # axes with a single sample have no extent to preserve: left alone
+                size = [a if a < 2 else max(b, 2) for a, b in zip(n, size)]
+            if op == "center_crop":
+                size = [min(a, b) for a, b in zip(size, n)]
+            if op == "center_pad":
+                size = [max(a, b) for a, b in zip(size, n)]
+            new = grid.reshape(size[::-1]) if op == "reshape" else getattr(grid, op)(size)
+        elif op in ("downsample", "upsample"):
+            k = 2 ** int(step["levels"])
+            dims = [i for i, a in enumerate(n) if a % k == 0 and a // k >= max(min_size, 2)] if op == "downsample" else []
+            if not dims:
+                op, dims = "upsample", [i for i, a in enumerate(n) if a >= 2]
+            if not dims:
+                raise Skip("no axis with more than one sample to resize")
+            new = getattr(grid, op)(int(step["levels"]), dims=dims)
+        elif op in ("crop", "pad"):
+            num = list(step["num"])
+            sign = -1 if op == "crop" else 1
+            for i in range(D):  # keep at least min_size samples
+                while n[i] + sign * (num[2 * i] + num[2 * i + 1]) < min_size:
+                    num[2 * i] += sign
+            new = getattr(grid, op)(num=num)
+        elif op == "narrow":
+            dim = int(step["dim"])
+            start = min(int(step["start"]), max(n[dim] - min_size, 0))
+            length = max(min(int(step["length"]), n[dim] - start), 1)
+            new = grid.narrow(dim, start, length)
+        elif op == "clone":
+            new = grid.clone()
+        elif op == "copy":
+            new = copy.copy(grid)
+        elif op == "deepcopy":
+            new = copy.deepcopy(grid)
+        elif op == "pickle":
+            new = pickle.loads(pickle.dumps(grid))
+        else:
+            raise ValueError(op)
+        if new is not grid:
+            assert_grid_intact(grid, state, f"Grid.{op}() (derivation of a new grid)")
+        if not bool(torch.equal(new._size, new._size.round())):
+            raise Skip("derived grid has a fractional internal size")
+        if any(int(v) < min_size for v in new.size()):
+            raise Skip("derived grid too small")
+        applied.append(op)
+        grid = new
+    return grid, applied
+
+
+def model_of_grid(grid) -> "ref.GridModel":
+    """Float64 model built from the attributes the Grid object reports (size, spacing, center, direction, flag)."""
+    return ref.GridModel([int(v) for v in grid.size()], grid.spacing().double().numpy(), center=grid.center().double().numpy(),
+                         direction=grid.direction().double().numpy(), align_corners=bool(grid.align_corners()))
